@@ -154,6 +154,27 @@ def mode_fit_loop(p):
     return search(one, 200)
 
 
+def mode_empty_cluster(p):
+    from bob.learn.em import KMeansMachine, GMMMachine
+    x = np.array([[0.0, 0.0], [0.0, 1.0], [1.0, 0.0], [1.0, 1.0]])
+    init = np.array([[0.5, 0.5], [100.0, 100.0]])
+    m = KMeansMachine(2, init_method=init.copy(), max_iter=2)
+    with np.errstate(all="ignore"):
+        m.fit(x)
+        bad = not np.all(np.isfinite(m.centroids_)) or not np.isfinite(m.average_min_distance)
+        g = GMMMachine(2, k_means_trainer=KMeansMachine(2, init_method=init.copy(), max_iter=1), max_fitting_steps=0)
+        try:
+            g.fit(x)
+            gbad = not (np.all(np.isfinite(g.means)) and np.all(np.isfinite(g.variances)) and np.all(g.weights > 0))
+        except Exception as e:
+            gbad = True
+    if bad or gbad:
+        return {"reproduced": True, "input": {"x": x.tolist(), "init_centroids": init.tolist()},
+                "observed": {"centroids": np.asarray(m.centroids_).tolist(), "criterion": float(m.average_min_distance)},
+                "expected": "finite centroids", "what": "a cluster that captures no sample makes the centroids (and the GMM initialised from them) NaN"}
+    return {"reproduced": False}
+
+
 MODES = {k[5:]: v for k, v in list(globals().items()) if k.startswith("mode_")}
 
 if __name__ == "__main__":
